@@ -623,11 +623,17 @@ class _GenerateRenderMethod:
         filtered = len(node.filter_args.args) > 0
         buffered = eval(node.attributes.get("buffered", "False"))
         cached = eval(node.attributes.get("cached", "False"))
-        self.printer.writelines(
-            # push new frame, assign current frame to __M_caller
-            "__M_caller = context.caller_stack._push_frame()",
-            "try:",
-        )
+        # an anonymous block is part of the callable it is written in and
+        # not called by anyone else: "caller" stays that callable's caller
+        callstack = not (node.is_block and node.is_anonymous)
+        if callstack:
+            self.printer.writelines(
+                # push new frame, assign current frame to __M_caller
+                "__M_caller = context.caller_stack._push_frame()",
+                "try:",
+            )
+        elif buffered or filtered or cached:
+            self.printer.writeline("try:")
         if buffered or filtered or cached:
             self.printer.writelines("context._push_buffer()")
 
@@ -640,7 +646,9 @@ class _GenerateRenderMethod:
             n.accept_visitor(self)
         self.identifier_stack.pop()
 
-        self.write_def_finish(node, buffered, filtered, cached)
+        self.write_def_finish(
+            node, buffered, filtered, cached, callstack=callstack
+        )
         self.printer.writeline(None)
         if cached:
             self.write_cache_decorator(
